@@ -51,13 +51,21 @@ def main():
 
     def setify(p):
         if not is_set:
-            return p
+            # (the real values are key-dependent: see vmap)
+            if p['t'] == 'L':
+                return dict(p, vs=[(k + v) % 3 + 1 for k, v in zip(p['ks'], p['vs'])])
+            return dict(p, kids=[setify(c) for c in p['kids']])
         if p['t'] == 'L':
             return dict(p, vs=[1] * len(p['ks']))
         return dict(p, kids=[setify(c) for c in p['kids']])
 
     def bnd(r):
         return None if r == 0 else emb.key(r)
+
+    def vmap(k, v):
+        """model value v of key k -> rank of the real value: neighbouring keys get different values, so that an entry
+        made of one key and another key's value shows"""
+        return (k + v) % 3 + 1
 
     for bi, beh in enumerate(sel):
         t = cls()
@@ -80,11 +88,11 @@ def main():
             got = ['-']
             try:
                 if op == 'setitem':
-                    ever.setdefault(a['k'], set()).add(1 if is_set else a['v'])
+                    ever.setdefault(a['k'], set()).add(1 if is_set else vmap(a['k'], a['v']))
                     if is_set:
                         t.add(emb.key(a['k']))
                     else:
-                        t[emb.key(a['k'])] = emb.val(a['v'])
+                        t[emb.key(a['k'])] = emb.val(vmap(a['k'], a['v']))
                 elif op == 'delitem':
                     try:
                         if is_set:
@@ -169,7 +177,7 @@ def main():
                 # exact: same outcome; of an entry the recorded component(s)
                 ok = got[0] == want[0]
                 if ok and got[0] == 'entry':
-                    ok = (got[1] is None or got[1] == want[1]) and (got[2] is None or is_set or got[2] == want[2])
+                    ok = (got[1] is None or got[1] == want[1]) and (got[2] is None or is_set or got[2] == vmap(want[1], want[2]))
                 if ok and got[0] == 'len':
                     ok = got[1] == want[1]
                 if not ok:
